@@ -214,6 +214,43 @@ def _row(choose, rb):
     return "⟨%d, %d, %s⟩" % (choose, rb[0], llist([("(%d)" % m) for m in rb[1]]))
 
 
+def _flag_value(e, nclass, lo):
+    """value of the initial `flag_three = <e>` on the arm (nclass, log_opt): e is a Boolean combination of True/False,
+    `log_opt` and comparisons of `nparam` with integer literals; for the arm `many` (nparam > 2) the value must not depend
+    on nparam (checked on every nparam from 3 to the largest literal + 3).  Anything else: ExtractError (fail closed)."""
+    lits = [abs(int(n.value)) for n in ast.walk(e) if isinstance(n, ast.Constant) and isinstance(n.value, int) and not isinstance(n.value, bool)]
+    ns = {"one": [1], "two": [2], "many": list(range(3, max(lits + [0]) + 4))}[nclass]
+
+    def ev(n, nparam):
+        if isinstance(n, ast.Constant) and isinstance(n.value, bool):
+            return n.value
+        if isinstance(n, ast.Name) and n.id == "log_opt":
+            return bool(lo)
+        if isinstance(n, ast.UnaryOp) and isinstance(n.op, ast.Not):
+            return not ev(n.operand, nparam)
+        if isinstance(n, ast.BoolOp):
+            vals = [ev(v, nparam) for v in n.values]
+            return all(vals) if isinstance(n.op, ast.And) else any(vals)
+        if isinstance(n, ast.Compare) and len(n.ops) == 1:
+            def num(q):
+                if isinstance(q, ast.Name) and q.id == "nparam":
+                    return nparam
+                if isinstance(q, ast.Constant) and isinstance(q.value, int) and not isinstance(q.value, bool):
+                    return q.value
+                _err(n, "initial flag_three: comparison operand not `nparam` / integer literal")
+            a, b = num(n.left), num(n.comparators[0])
+            op = type(n.ops[0])
+            table = {ast.Lt: a < b, ast.LtE: a <= b, ast.Gt: a > b, ast.GtE: a >= b, ast.Eq: a == b, ast.NotEq: a != b}
+            if op not in table:
+                _err(n, "initial flag_three: comparison operator not recognised")
+            return table[op]
+        _err(n, "initial flag_three: expression not a Boolean combination of log_opt / nparam comparisons")
+    vals = set(ev(e, k) for k in ns)
+    if len(vals) != 1:
+        _err(e, "initial flag_three depends on nparam within the arm `nparam > 2`")
+    return vals.pop()
+
+
 def _branch(stmts, pre_flag):
     """one arm of the nparam/log_opt chain -> dict(flag, calls, sel)"""
     stmts = _strip(stmts)
@@ -392,15 +429,19 @@ def optimise_table(tree):
         raise ExtractError("optimise_fun: final `return chi2_i, params` changed")
     tb = _strip(tr.body)
     tsrc = [U(s) for s in tb]
-    for want in ("flag_three = False", "mult_arr = np.ones(max_param)", "count_lowest = 0", "inf_count = 0", "chi2_min = np.inf", "chi2_i = chi2_min"):
+    for want in ("mult_arr = np.ones(max_param)", "count_lowest = 0", "inf_count = 0", "chi2_min = np.inf", "chi2_i = chi2_min"):
         if tsrc.count(want) != 1:
             raise ExtractError("optimise_fun: `%s` expected exactly once at the top level of the try block" % want)
+    finit = [s for s in tb if isinstance(s, ast.Assign) and len(s.targets) == 1 and U(s.targets[0]) == "flag_three"]
+    if len(finit) != 1:
+        raise ExtractError("optimise_fun: `flag_three = <expr>` expected exactly once at the top level of the try block")
+    flag_init = lambda nclass, lo: _flag_value(finit[0].value, nclass, lo)
     loops = [s for s in tb if isinstance(s, ast.For)]
     if len(loops) != 1 or U(loops[0].target) != "j" or U(loops[0].iter) != "range(Niter)" or loops[0].orelse:
         raise ExtractError("optimise_fun: `for j in range(Niter)` not found")
     loop = loops[0]
     li = tb.index(loop)
-    if tsrc.index("chi2_min = np.inf") > li or tsrc.index("count_lowest = 0") > li or tsrc.index("inf_count = 0") > li:
+    if tsrc.index("chi2_min = np.inf") > li or tsrc.index("count_lowest = 0") > li or tsrc.index("inf_count = 0") > li or tb.index(finit[0]) > li:
         raise ExtractError("optimise_fun: loop state must be initialised before the loop")
     # pre-loop flag_three for nparam > 2
     pre_many = False
@@ -426,11 +467,13 @@ def optimise_table(tree):
         _err(two, "2-parameter arm must be `if log_opt: ... else: ...`")
     if not (len(one) == 1 and isinstance(one[0], ast.If) and U(one[0].test) == "log_opt" and one[0].orelse):
         _err(two, "1-parameter arm must be `if log_opt: ... else: ...`")
-    many = _branch(chain.body, pre_many)
+    # flag_three per (arm, log_opt): its initial value (a Boolean expression over log_opt / nparam, evaluated for the arm),
+    # or-ed with the `flag_three = True` statements on the arm's path (pre-loop `if nparam > 2`, inside the arm)
     branches = [
-        ("many", True, many), ("many", False, many),
-        ("two", True, _branch(tw[0].body, False)), ("two", False, _branch(tw[0].orelse, False)),
-        ("one", True, _branch(one[0].body, False)), ("one", False, _branch(one[0].orelse, False)),
+        ("many", True, _branch(chain.body, pre_many or flag_init("many", True))),
+        ("many", False, _branch(chain.body, pre_many or flag_init("many", False))),
+        ("two", True, _branch(tw[0].body, flag_init("two", True))), ("two", False, _branch(tw[0].orelse, flag_init("two", False))),
+        ("one", True, _branch(one[0].body, flag_init("one", True))), ("one", False, _branch(one[0].orelse, flag_init("one", False))),
     ]
     out["branches"] = branches
     # ---- bookkeeping statements
